@@ -12,6 +12,14 @@ CLAIMED = {
    technique="bounded-exhaustive enumeration of the full length dimension (every data length 0..65535, every Le 0..65536) against an independent ISO 7816-4 parser",
    text="Every data length 0..65535 and every expected length 0..65536 is enumerated (against a boundary set of the other dimension and of headers) on the real encoder; each encoding is parsed by an independent ISO 7816-4 parser and compared. Responses: all byte strings up to length 2/3 plus structured ones to 64 KiB. Exhaustive in the dimension the property quantifies over, which unit tests sample at 8 points.",
    note="trusts ref7816 (90-line independent parser) as the statement of ISO/IEC 7816-4 §5.2; data content is a fixed pattern (the encoder never inspects it)"),
+ "C16": dict(level="exploration", ref="§4 C16",
+   technique="bounded-exhaustive input enumeration (all byte strings <=3, all <=3/4-node encodings of a BER grammar, every 1-byte substitution/deletion/insertion of every <=2-node encoding) against an independent BER reference decoder and canonical encoder",
+   text="Every input of the stated finite spaces is decoded by the real tlv.Decode and by the independent reference refber; accepted inputs are compared tree-to-tree, re-encoded (must equal the definite minimal encoding computed independently), re-decoded, checked for idempotence and for NodeByTagOccur on every level; depth/count limits are located empirically and must be monotone. Exhaustive over small encodings, where every structural rule of BER already shows.",
+   note="trusts refber (X.690 §8.1 TLV structure; lenient on tag 00 with non-zero length and on non-minimal tag numbers; gives no verdict on tag 00 with long-form zero length); values are from a 3-element alphabet (the decoder never inspects primitive contents)"),
+ "C03": dict(level="model_checking", ref="§4 C03",
+   technique="stateless deviation-bounded exploration (D=1 over the complete attacker menu at every exchange, D=2 over all ordered pairs on small shapes) of the real NfcSession/SecureMessaging against an independent chip-side SM",
+   text="For each of 4 algorithms x 3 initial counters (incl. wrap) x 3-exchange histories over 8 command and 12 response shapes, the attacker's complete menu (every bit flip, truncation, byte deletion, DO deletion/duplication/permutation, outer SW replacement, replay of earlier genuine responses, parallel-session response, unprotected responses) is enumerated as one deviation at every position, and all ordered pairs of deviations at exchanges 0 and 1; executions run to completion on the real code. Oracle: error, or exactly what the chip protected for that exchange; outer/protected status mismatch must be an error.",
+   note="MAC forgery is not searched; key/counter values from small alphabets (zero, mid, about to wrap); re-ordered or duplicated data objects that still deliver the identical authenticated content are tolerated (the statement's core is 'never different plaintext or status')"),
 }
 PENDING_REASON = "check not built yet in this session (planned in DESIGN.md §4); no claim is made until its machinery exists and is green on the unchanged tree"
 
